@@ -69,3 +69,8 @@ def task_read_plain(j):
     tag, sh, plain = G
     x = float(plain[0])
     return (j, x)
+
+
+def task_echo(x):
+    y = x
+    return y
